@@ -20,7 +20,11 @@
    Provider. *)
 EXTENDS Naturals, Sequences, FiniteSets, TLC, Json
 CONSTANTS Names, Variant, MaxDefs, MaxGets, Emit, InjLen,
-          Wide        \* {} or a set of names whose factories request TWO dependencies (and every name starts with an explicit factory)
+          Wide,       \* {} or a set of names whose factories request TWO dependencies (and every name starts with an explicit factory)
+          ChainSeq    \* <<>> or a sequence of ALL names: a long chain -- the factory of each name requests the next one
+                      \* (all edges required, or all optional), the last one requests nothing and may fail; every name starts
+                      \* with an explicit factory.  Chains far longer than the exhaustive graphs (20 names) stay cheap because
+                      \* nothing but the requests is left to choose.
 VARIABLES deps, fails,            \* the (fixed) factory behaviour: name -> seq of [t, opt]; set of failing factories
           inj,                    \* struct injection in progress: [on, fs (fields), i (current field), got (results so far)]
           DI, DF, F, inst,        \* the four tables (inst: name -> tag)
@@ -39,12 +43,18 @@ DepChoices == {<<>>} \cup { <<e>> : e \in Edge }
 WideChoices == { <<e1, e2>> : e1 \in Edge, e2 \in Edge }
 NoInj == [on |-> FALSE, fs |-> <<>>, i |-> 0, got |-> <<>>]
 InjShapes == IF InjLen = 0 THEN {} ELSE { f \in [1..InjLen -> Edge] : f[1].t = CHOOSE n \in Names : TRUE }
-Init == /\ deps \in { d \in [Names -> DepChoices \cup WideChoices] : \A n \in Names : (Len(d[n]) = 2) = (n \in Wide) }
-        /\ fails \in SUBSET Names /\ inj = NoInj
+NoChain == <<>>
+Chain20 == <<"N01", "N02", "N03", "N04", "N05", "N06", "N07", "N08", "N09", "N10", "N11", "N12", "N13", "N14", "N15", "N16", "N17", "N18", "N19", "N20">>
+Preset == Wide # {} \/ ChainSeq # <<>>
+ChainIdx(n) == CHOOSE i \in 1..Len(ChainSeq) : ChainSeq[i] = n
+ChainDeps(o) == [n \in Names |-> IF ChainIdx(n) < Len(ChainSeq) THEN <<[t |-> ChainSeq[ChainIdx(n) + 1], opt |-> o]>> ELSE <<>>]
+Init == /\ deps \in (IF ChainSeq # <<>> THEN { ChainDeps(o) : o \in BOOLEAN }
+                     ELSE { d \in [Names -> DepChoices \cup WideChoices] : \A n \in Names : (Len(d[n]) = 2) = (n \in Wide) })
+        /\ fails \in (IF ChainSeq # <<>> THEN {{}, {ChainSeq[Len(ChainSeq)]}} ELSE SUBSET Names) /\ inj = NoInj
         /\ DI = {} /\ DF = {} /\ inst = << >> /\ blocked = FALSE /\ callstack = <<>>
-        /\ F = (IF Wide = {} THEN {} ELSE Names) /\ gF = F /\ ndefs = (IF Wide = {} THEN 0 ELSE MaxDefs)
-        /\ hist = (IF Wide = {} THEN <<>> ELSE [i \in 1..Cardinality(Names) |->
-                       [call |-> "addfactory", n |-> (CHOOSE s \in [1..Cardinality(Names) -> Names] : \A a, b \in 1..Cardinality(Names) : a # b => s[a] # s[b])[i],
+        /\ F = (IF ~Preset THEN {} ELSE Names) /\ gF = F /\ ndefs = (IF ~Preset THEN 0 ELSE MaxDefs)
+        /\ hist = (IF ~Preset THEN <<>> ELSE [i \in 1..Cardinality(Names) |->
+                       [call |-> "addfactory", n |-> (IF ChainSeq # <<>> THEN ChainSeq ELSE CHOOSE s \in [1..Cardinality(Names) -> Names] : \A a, b \in 1..Cardinality(Names) : a # b => s[a] # s[b])[i],
                         res |-> "ok", tag |-> "-", calls |-> [x \in Names |-> 0]]])
         /\ frames = <<>> /\ ret = "none" /\ calls = [n \in Names |-> 0] /\ ngets = 0
         /\ top = "none" /\ out = <<"none","none","-">> /\ gSet = {} /\ gDI = {} /\ gDF = {}
